@@ -162,6 +162,20 @@ def run_case(case, drv):
         res.fail("add_nodes:raises", f"add_nodes raised on a valid port: {impl[1]}")
     if not valid and want_tw and impl[0] == "ok":
         res.fail("add_nodes:accepts-inverted", "add_nodes accepted a port whose cargo size exceeds its capacity")
+    if impl[0] != "ok":
+        # a port that was refused (capacity below the cargo size): the caller carries on with the next port of the same MIRP; its visits,
+        # looked up BY NAME, must be what a MIRP that never saw the refused port gives
+        try:
+            later = list(m.add_nodes("Zq", 0.5, 1.0, float(size) + 3.0))
+            fresh = MIRP(float(size), float(H))
+            ref = list(fresh.add_nodes("Zq", 0.5, 1.0, float(size) + 3.0))
+            got = [(nm, F(m.vrptw.get_node(nm).get_demand()), tuple(F(t) for t in m.vrptw.get_node(nm).get_window())) for nm in later]
+            want_l = [(nm, F(fresh.vrptw.get_node(nm).get_demand()), tuple(F(t) for t in fresh.vrptw.get_node(nm).get_window())) for nm in ref]
+            if got != want_l:
+                res.fail("add_nodes:after-refused-port", f"after a refused port the visits of the next port read {core._short(got, 160)}, on a fresh MIRP {core._short(want_l, 160)}")
+            res.features.append("port-after-refused-port:checked")
+        except Exception as e:  # noqa
+            res.fail("add_nodes:after-refused-port", f"after a refused port, declaring / looking up the next port raised {e!r}")
     if impl[0] == "ok":
         st = MU.mirp_state(m)
         nodes = st["g"]["nodes"][1:]
